@@ -60,6 +60,16 @@ let () =
           | Some h -> set_file name (Some h); take_snap name; obs "create ok")
        | _ -> failwith "create")
     | _ -> failwith "create");
+  register "createshared" (fun tk -> match tk with
+    | _ :: a :: b :: rest ->
+      let (l, rest) = parse_layout rest in
+      (match rest with
+       | ["m"; m; "x"; x] ->
+         (match create (zi m) (z_of_hex x) l with
+          | None -> set_file a None; set_file b None; obs "createshared err"
+          | Some h -> set_file a (Some h); set_file b (Some h); take_snap a; take_snap b; obs "createshared ok")
+       | _ -> failwith "createshared")
+    | _ -> failwith "createshared");
   register "upd" (fun tk -> match tk with
     | [_; name; id; t; v; now] -> with_file "upd" name (fun h ->
         let (h', o) = h_update flocq_fops h (zi id) (zi t) (z_of_hex v) (zi now) in
